@@ -64,6 +64,60 @@ impl<const L: usize> Env<L> {
     }
 }
 
+/// Fixed-size submission log used by whole-`update` agent harnesses in place of the environment's
+/// growing vectors (a `Vec` whose length depends on the path taken is out of CBMC's reach).
+#[derive(Clone, Copy)]
+pub struct Placed {
+    pub bid: bool,
+    pub vol: Vol,
+    pub trader: TraderId,
+    pub price: Option<Price>,
+}
+pub const PLACED_CAP: usize = 8;
+pub static mut PLACED: [Placed; PLACED_CAP] = [Placed { bid: false, vol: 0, trader: 0, price: None }; PLACED_CAP];
+pub static mut NPLACED: usize = 0;
+pub static mut NCANCELLED: usize = 0;
+pub static mut CANCELLED: [OrderId; PLACED_CAP] = [0; PLACED_CAP];
+pub fn placed() -> ([Placed; PLACED_CAP], usize) {
+    unsafe { (PLACED, NPLACED) }
+}
+pub fn cancelled() -> ([OrderId; PLACED_CAP], usize) {
+    unsafe { (CANCELLED, NCANCELLED) }
+}
+
+// (generic parameter named as in the crate: Kani compares stub signatures nominally)
+impl<const LEVELS: usize> Env<LEVELS> {
+    /// Stand-in for `Env::place_order` in whole-`update` agent harnesses (`#[kani::stub]`): applies the
+    /// same tick-grid test as `OrderBook::create_order`, records the submission in a fixed-size log
+    /// and returns consecutive ids.  `Env::place_order` itself is decided by C10's submission harnesses.
+    pub fn verif_log_place_order(&mut self, side: Side, vol: Vol, trader_id: TraderId, price: Option<Price>) -> Result<OrderId, OrderError> {
+        let tick = self.order_book.verif_tick();
+        if let Some(p) = price {
+            if p % tick != 0 {
+                return Err(OrderError::PriceError { price: p, tick_size: tick });
+            }
+        }
+        unsafe {
+            let n = NPLACED;
+            if n < PLACED_CAP {
+                PLACED[n] = Placed { bid: matches!(side, Side::Bid), vol, trader: trader_id, price };
+            }
+            NPLACED = n + 1;
+            Ok(n)
+        }
+    }
+    /// Stand-in for `Env::cancel_order` in the same harnesses: records the id.
+    pub fn verif_log_cancel_order(&mut self, order_id: OrderId) {
+        unsafe {
+            let n = NCANCELLED;
+            if n < PLACED_CAP {
+                CANCELLED[n] = order_id;
+            }
+            NCANCELLED = n + 1;
+        }
+    }
+}
+
 // ------------------------------------------------------------------------------------------
 // instructions
 // ------------------------------------------------------------------------------------------
